@@ -115,6 +115,20 @@ impl Recv {
 #[cache(limit = 8)]
 pub fn g_one(a: u32) -> u64 { body1(a) }
 
+// ---- attribute ORDER must not matter (every other fixture writes policy before the attributes that depend on it);
+//      a cache may list its OWN name among its dependencies
+#[cache(frequency_weight = 2.5, ttl = 20, limit = 4, policy = "tlru")]
+pub fn g_fw_first(a: u32, b: String) -> u64 { body2(a, b) }
+
+#[cache_async(frequency_weight = 2.5, max_memory = "4KB", ttl = 20, limit = 4, policy = "tlru")]
+pub async fn a_fw_first(a: u32, b: String) -> u64 { body2(a, b) }
+
+#[cache(dependencies = ["g_selfdep", "d2"], limit = 8, name = "g_selfdep")]
+pub fn g_selfdep(a: u32, b: String) -> u64 { body2(a, b) }
+
+#[cache_async(dependencies = ["a_selfdep"], limit = 8, name = "a_selfdep")]
+pub async fn a_selfdep(a: u32, b: String) -> u64 { body2(a, b) }
+
 // ---- max_memory spellings: GB suffix, plain byte count
 #[cache(limit = 4, max_memory = "1GB")]
 pub fn g_mem_gb(a: u32, b: String) -> u64 { body2(a, b) }
